@@ -2,15 +2,16 @@
 # Build the verification framework from files on disk only (offline) and warm the Go build cache.
 set -e
 export GOFLAGS=-mod=mod GOPROXY=off GOSUMDB=off GOTOOLCHAIN=local
-cd /verif
+V=${VERIF_ROOT:-/verif}
+cd $V
 mkdir -p bin evidence replays
-(cd instr && go build -o /verif/bin/instr .)
-(cd mc && go build -o /verif/bin/nricheck ./cmd/nricheck)
+(cd instr && go build -o $V/bin/instr .)
+(cd mc && go build -o $V/bin/nricheck ./cmd/nricheck)
 # warm the cache: instrument once and build every harness against the overlay
 S=$(mktemp -d /var/tmp/nrisetup-XXXXXX)
 trap 'rm -rf "$S"' EXIT
 for kind in base mux; do
-  /verif/bin/instr -repo "${VERIF_REPO:-/repo}" -verif /verif/mc -out "$S/$kind" -kind $kind >/dev/null
+  $V/bin/instr -repo "${VERIF_REPO:-/repo}" -verif $V/mc -out "$S/$kind" -kind $kind >/dev/null
 done
 cd mc
 for h in harness/*/; do
